@@ -28,7 +28,7 @@ func runC14(c *Check) {
 	}
 	var T *types.Named
 	for _, r := range Returns(ctor) {
-		for _, o := range Origins(r.Results[0]) {
+		for _, o := range RetOrigins(r, 0) {
 			if mi, ok := o.(*ssa.MakeInterface); ok {
 				if n := NamedOf(mi.X.Type()); n != nil {
 					T = n
@@ -124,7 +124,7 @@ func runC14(c *Check) {
 	c.Report(!split, P+".O1", "ATOMIC-CHECK-INSERT", isDup, lk.Pos(), "lookup…insert", "no path from the lookup to the insert releases the mutex (check and insert are one critical section)", wit...)
 	for i, r := range Returns(isDup) {
 		k := fmt.Sprintf("return#%d", i)
-		for _, v := range Origins(r.Results[0]) {
+		for _, v := range RetOrigins(r, 0) {
 			if e, isE := v.(*ssa.Extract); isE && e.Index == 1 && e.Tuple == ssa.Value(lk) {
 				// the lookup's own `found` flag is the answer: right by construction; a new key must have been inserted by then
 				okIns := true
@@ -252,7 +252,7 @@ func c14Defaults(c *Check, P string) {
 	c.Floor(P+".O2", "test `deduplicator == nil` in the defaults function", len(isNil), 1)
 	for i, r := range Returns(def) {
 		k := fmt.Sprintf("defaults return#%d", i)
-		for _, v := range Origins(r.Results[0]) {
+		for _, v := range RetOrigins(r, 0) {
 			if v == ssa.Value(dP) {
 				continue
 			}
@@ -309,7 +309,7 @@ func c14Dedup(c *Check, P string) {
 					continue
 				}
 				ok := len(vals) == 1 && IsResultOf(vals[0], rep[0], 0)
-				ev := Origins(r.Results[1])
+				ev := RetOrigins(r, 1)
 				ok = ok && len(ev) == 1 && IsResultOf(ev[0], rep[0], 1)
 				c.Report(ok, P+".O2", "REPOSITORY-ANSWER", dupM, r.Pos(), "return", "the repository's answer and error are returned unchanged")
 			}
@@ -382,7 +382,7 @@ func c14Dedup(c *Check, P string) {
 	var decT *types.Named
 	for _, f := range WithAnon(pd) {
 		for _, r := range Returns(f) {
-			for _, o := range Origins(r.Results[0]) {
+			for _, o := range RetOrigins(r, 0) {
 				if mi, ok := o.(*ssa.MakeInterface); ok && mi.Type().String() == msgPkg+".Publisher" {
 					decT = NamedOf(mi.X.Type())
 				}
